@@ -6,6 +6,7 @@ From Verif Require Import C01.Lisp C01.Py C01.Gen C01.Sim C01.Top.
 From Verif Require C01.FLisp C01.FCorr C01.FRefuted.
 From Verif Require C01L.LLisp C01L.LPy C01L.LGen C01L.LSim C01L.LTop.
 From Verif Require C01X.XLisp C01X.XPy C01X.XGen C01X.XSim C01X.XTop.
+From Verif Require C01C.CLisp C01C.CPy C01C.CGen C01C.CSim C01C.CTop.
 
 (** First-order core (constants, locals with shadowing, if, do, let*, calls of primitives
     with any number of arguments, nested to any depth).  PARTIAL: guarded by the executable
@@ -87,6 +88,34 @@ Example C01_exception_leaves_loop :
   XGen.xrun 60 XTop.escaping = Some (XGen.XRExc 2 [VInt 0; VInt 1; VInt 2]).
 Proof. exact XTop.escaping_ok. Qed.
 
+(** Closures (C01C): the first-order core extended with fn* (one arity, any number of
+    parameters, shadowing of captured names by parameters and by inner let-bindings) and the invocation of
+    function values.  Python function values refer to their defining frame BY REFERENCE (it is
+    read when the function is called); the theorem shows that for every closed program of the
+    fragment -- closures returned, stored, passed around and called any number of times -- the
+    compiled code yields the same observable value and trace, i.e. every closure sees the
+    bindings in effect when it was created.  The invariant that makes this true is that a frame
+    only ever gains fresh names; loop*/recur (where generated code re-assigns a name) is exactly
+    where it fails, which is finding F-01a.  PARTIAL: guard [hazard_free] (no hoisting hazard:
+    here, a non-atomic argument may not be followed by an argument that needs statements;
+    distinct parameters); loops, try and def are not in this fragment. *)
+Theorem C01_compile_correct_closures_partial : forall fuel e v tr,
+  CLisp.ceval fuel [] e = Some (v, tr) -> CGen.hazard_free e = true ->
+  exists m, forall m', (m <= m')%nat -> CGen.crun m' e = Some (CLisp.obs_of v, tr).
+Proof. exact CTop.ccompile_correct. Qed.
+Theorem C01_closure_simulation : forall fuel, CSim.csim fuel.
+Proof. exact CSim.csim_all. Qed.
+Example C01_closures_keep_their_bindings :
+  CGen.hazard_free CTop.counters = true /\
+  CGen.ceval_obs 40 CTop.counters = Some (FLisp.OVec [FLisp.OInt 1; FLisp.OInt 2], []) /\
+  CGen.crun 40 CTop.counters = CGen.ceval_obs 40 CTop.counters.
+Proof. exact CTop.counters_ok. Qed.
+Example C01_rebinding_does_not_reach_closure :
+  CGen.hazard_free CTop.rebind = true /\
+  CGen.ceval_obs 40 CTop.rebind = Some (FLisp.OVec [FLisp.OInt 1; FLisp.OInt 2], []) /\
+  CGen.crun 40 CTop.rebind = CGen.ceval_obs 40 CTop.rebind.
+Proof. exact CTop.rebind_ok. Qed.
+
 (** Full fragment (fn*/closures, loop*/recur, try/catch/finally, throw, def, literals):
     executable model (FLisp/FPy/FGen) tied to the compiler by the correspondence run.  The
     full statement "model e = spec e for every program" is REFUTED by these witnesses, each
@@ -130,3 +159,7 @@ Print Assumptions C01_compile_correct_exceptions_partial.
 Print Assumptions C01_exception_simulation.
 Print Assumptions C01_catch_finally.
 Print Assumptions C01_exception_leaves_loop.
+Print Assumptions C01_compile_correct_closures_partial.
+Print Assumptions C01_closure_simulation.
+Print Assumptions C01_closures_keep_their_bindings.
+Print Assumptions C01_rebinding_does_not_reach_closure.
